@@ -273,7 +273,15 @@ impl Serialize for SystemTime {
         let before_epoch = bytes[12] == 0_u8;
         let secs = u64::from_le_bytes(secs_bytes);
         let nanos = u32::from_le_bytes(nanos_bytes);
-        let duration = Duration::new(secs, nanos);
+        // Duration::new panics when the nanoseconds carry overflows the seconds
+        let duration = Duration::from_secs(secs)
+            .checked_add(Duration::from_nanos(nanos as u64))
+            .ok_or_else(|| {
+                DbError::serialization(
+                    DbErrorType::OutOfBounds,
+                    "SystemTime deserialization error: duration out of range",
+                )
+            })?;
 
         if before_epoch {
             Ok(UNIX_EPOCH.checked_sub(duration).ok_or_else(|| {
